@@ -208,6 +208,11 @@ def _str_parts(t):
     def parts(x):
         if x[0] == "binop" and x[1] == "Add":
             return parts(x[2]) + parts(x[3])
+        if x[0] == "fstr":
+            out_ = []
+            for p_ in x[1]:
+                out_ += parts(p_) if (is_const(p_) and isinstance(p_[1], str)) else [("call", "str", (p_,), ())]
+            return out_
         return [x]
     out = []
     for p in parts(t):
